@@ -7,24 +7,24 @@ L0="deterministic component simulation against a reference model with fault inje
 checks={
  "C01":("exploration","simhost","porcupine linearizability check of the recorded client history (writes/ReadIndex+ReadLocalNode on any replica) under loss, delay, reordering, partitions, transfers, crash+restart; no duplication", SIMHOST+" + porcupine"),
  "C02":("exploration","simhost","every entry delivered to any user state machine is compared with what any other replica applied at that index; gap-free increasing apply order; equal state at equal applied index; no two replicas hold different entries (terms) at an index both have durably committed; the code's own log/apply invariant panics are violations; shapes incl. a single voter with non-voting members and crashes biased into file system operations", SIMHOST),
- "C03":("exploration","simhost","leader per term ghost from white-box role peeks after every event; one vote per term across restarts from the frames that leave each replica (incl. votes visible before they are durable); a new leader must have the votes of a majority of its voters and witnesses; no campaign while a committed membership change is unapplied", SIMHOST),
+ "C03":("exploration","simhost","leader per term ghost from white-box role peeks after every event; one vote per term across restarts from the frames that leave each replica (incl. votes visible before they are durable); a new leader must have the votes of a majority of its voters and witnesses, and the members of the membership its own state machine has applied that did not vote for it must not be a quorum of that membership; no campaign while a committed membership change is unapplied; faults aimed at membership changes and snapshot installs (held tasks, cut links)", SIMHOST),
  "C04":("exploration","simhost","every frame leaving a replica is checked against the durable shadow recorded when SaveRaftState returned; after crash+restart the recovered term/vote/last index are compared with what had been promised; restart must succeed", SIMHOST),
  "C05":("exploration","simhost","clients use registered sessions and retry timed-out proposals with the same series id on any replica under loss/duplication/leader changes/snapshots/restarts with a small session LRU; every write id must reach each state machine incarnation at most once, retries that complete must carry the result of that application, unregistered/evicted sessions must be Rejected and never applied", SIMHOST),
  "C06":("exploration","simhost","at the moment a ReadIndex completes on any replica its local applied index must be at least the highest durably backed commit index any replica had when the request was issued (ghost, monotone); a completed read must return a version >= that of every write of the key acknowledged before the read was invoked; under duplication/reordering/partitions (pairwise and group splits)/transfers/membership changes incl. shapes with non-voting members", SIMHOST),
- "C07":("exploration","simhost","membership observed per ConfigChangeId must be identical on all replicas and obey the stated rules; invalid requests must not complete; stale ordered ids must be rejected", SIMHOST),
+ "C07":("exploration","simhost","membership observed per ConfigChangeId must be identical on all replicas and obey the stated rules; invalid requests must not complete; stale ordered ids must be rejected; on an idle replica the raft core's voters/non-voting members/witnesses equal the applied membership", SIMHOST),
  "C08":("exploration","simhost","frequent snapshots with small compaction overhead, lagging followers caught up through real chunk transfer, restarts from own snapshots, all three SM kinds, compression on/off: replicas that applied the same index must hold the same state, restart after any crash must succeed (no gap after compaction)", SIMHOST),
  "C09":("exploration","l0","real Tan (regular, multiplexed) and sharded Pebble (plain, batched) over SimFS driven with tape-chosen save/overwrite/compaction/removal/import/reopen sequences over several replicas sharing a store, every query compared with a reference store written from the ILogDB contract", L0),
  "C10":("fault_enumeration","l0","same harness with a crash (all unsynced data lost, optional torn prefix) or an I/O error at a tape-chosen or enumerated file-system operation / KV call of a save, compaction, rollover or import: acknowledged saves must be readable after reopen, the interrupted save all-or-nothing per replica, a failed write never reported as success", L0),
- "C11":("exploration","simhost","instrumented state machines of the three kinds park inside their methods so that overlapping calls are observed; index order, no call after Close, on-disk Open index", SIMHOST),
+ "C11":("exploration","simhost","instrumented state machines of the three kinds park inside their methods so that overlapping calls are observed; index order, no call after Close, on-disk Open index; one part runs a second (ballast) shard per host that keeps the only snapshot worker busy so that jobs of stopped and restarted incarnations queue", SIMHOST),
  "C12":("exploration","simhost","every accepted request is watched for exactly one terminal result, truthful Completed value, expiry in the fair phase; component model of the pending tables", SIMHOST+"; "+L0),
  "C13":("fault_enumeration","l0","CLAIMED IN PART: frame clause decided by enumerating bit flips/truncations of real frames; codec round trip and size bounds only on generated values", L0),
  "C14":("fault_enumeration","l0","real SnapshotWriter/Reader (v1+v2, with/without compression) over SimFS: every single-bit flip of small files and streams is enumerated, larger ones sampled; truncations, lost/repeated pieces; the ChunkWriter->SnapshotValidator stream side; shrunk snapshots; I/O errors", L0),
  "C15":("exploration","l0","real sender side splitting -> real transport.Chunk receiver over SimFS with tape-chosen perturbations (drop, swap, duplicate, restart, interleaved senders/indexes, corrupt bytes, foreign ids, removed replica, GC tick placement, hostile file names), incl. exhaustive single perturbations of a fixed 5-chunk stream", L0),
  "C16":("exploration","simhost","crashes land between any two file system operations of snapshot save/receive/commit/compact; what a crash leaves in the snapshot directory is marked, and after the real start-up path only the recorded snapshot may remain (unflagged, file present); the replica must restart and is held to its promises (C04 ledger)", SIMHOST),
- "C17":("exploration","simhost","after the fault phase (loss, partitions, crashes, restarts, membership changes, transfers, quiesce) a fair fault-free schedule in which clients keep submitting requests must produce a leader, complete fresh proposals and reads and bring every member to the commit index within a stated tick budget; failures are diagnosed (cause tag) so that the two recorded findings are told apart from anything new", SIMHOST),
- "C18":("exploration","simhost","replicas whose own applied membership does not list them as voters must never be candidate/leader; election and ReadIndex confirmation quorums are recomputed from the votes / echoes that actually left the voters and witnesses; witnesses never receive payloads and never serve reads; explored over cluster shapes with non-voting members and witnesses, group splits and promotions", SIMHOST),
+ "C17":("exploration","simhost","after the fault phase (loss, partitions, crashes, restarts, membership changes, transfers, quiesce) a fair fault-free schedule in which clients keep submitting requests (in a third of the runs with a ReadIndex on every replica in every round) must produce a leader, complete fresh proposals and reads and bring every member to the commit index within a stated tick budget; failures are diagnosed (cause tag) so that the two recorded findings are told apart from anything new", SIMHOST),
+ "C18":("exploration","simhost","replicas whose own applied membership does not list them as voters must never be candidate/leader; election and ReadIndex confirmation quorums are recomputed from the votes / echoes that actually left the voters and witnesses; a leader with CheckQuorum to which nothing but its non-voting members has been delivered for three election timeouts must have stepped down; the raft core's member sets equal the applied membership on an idle replica; witnesses never receive payloads and never serve reads; explored over cluster shapes with non-voting members and witnesses, group splits and promotions", SIMHOST),
  "C19":("exploration","l0","real entryLog+LogReader driven against a slice model of the logical log after every operation", L0),
- "C20":("exploration","simhost","seeded history, RequestSnapshot(Exported) at a random point, more history, loss of all hosts, tools.ImportSnapshot on every listed host with a tape-chosen member list (subset/fresh/single; invalid lists; damaged export directory), restart: membership must equal the list with unlisted old members removed, every replica must recover exactly the exported state, a leader must emerge and new proposals complete; refused imports must leave the disk byte-identical", SIMHOST),
+ "C20":("exploration","simhost","seeded history, RequestSnapshot(Exported) at a random point, more history, loss of all hosts, tools.ImportSnapshot on every listed host with a tape-chosen member list (subset/fresh/single; invalid lists; damaged export directory), restart: membership must equal the list with unlisted old members removed, every replica must recover exactly the exported state, a leader must emerge and new proposals complete; refused imports must leave the disk byte-identical; simhost runs on Tan, the log store side of ImportSnapshot is additionally compared with a reference store on the Pebble layouts and Tan (l0/logstore parts) straight after the import and after the reopen", SIMHOST+"; "+L0),
 }
 notes={
  "C13":"the pure codec clause over all inputs is not a simulation target; only generated boundary-heavy values are exercised",
